@@ -26,8 +26,16 @@ func (e *Engine) autoTags(kind string, fn *ssa.Function) []string {
 		top = top.Parent()
 	}
 	file := ""
-	if top.Pos().IsValid() {
+	if top.Pos().IsValid() && top.Synthetic == "" {
 		file = e.w.fset.Position(top.Pos()).Filename
+	} else if rt := wrapperRecvType(top); rt != nil {
+		// synthesized wrapper of a promoted method: the file that declares the receiver type
+		if p, ok := rt.(*types.Pointer); ok {
+			rt = p.Elem()
+		}
+		if n, ok := rt.(*types.Named); ok && n.Obj().Pos().IsValid() {
+			file = e.w.fset.Position(n.Obj().Pos()).Filename
+		}
 	}
 	key := kind + "|" + file
 	if t, ok := e.w.autoTagCache[key]; ok {
@@ -38,6 +46,13 @@ func (e *Engine) autoTags(kind string, fn *ssa.Function) []string {
 	topPkg := ""
 	if top.Pkg != nil {
 		topPkg = top.Pkg.Pkg.Path()
+	} else if rt := wrapperRecvType(top); rt != nil {
+		if p, ok := rt.(*types.Pointer); ok {
+			rt = p.Elem()
+		}
+		if n, ok := rt.(*types.Named); ok && n.Obj().Pkg() != nil {
+			topPkg = n.Obj().Pkg().Path()
+		}
 	}
 	for _, at := range e.w.spec.AutoTags {
 		if at.Kind != kind || at.Pkg != topPkg {
@@ -1338,6 +1353,9 @@ func (fx *FnExec) builtinModel(st *State, in ssa.CallInstruction, callee *ssa.Fu
 		e.assume(st, not(eq(v.L[0], "0")))
 		return v, true
 	case "sync.(*Cond).Broadcast", "sync.(*Cond).Signal":
+		if class := e.w.spec.Conds[args[0].Origin]; class != "" {
+			st.heap[e.keyCondFlag(class)] = "false"
+		}
 		return nil, true
 	case "sync.(*Cond).Wait":
 		class := e.w.spec.Conds[args[0].Origin]
@@ -1506,4 +1524,14 @@ func (e *Engine) freshTypeKeys(tname string, pkg string) []string {
 		}
 	}
 	return out
+}
+
+func wrapperRecvType(f *ssa.Function) types.Type {
+	if recv := f.Signature.Recv(); recv != nil {
+		return recv.Type()
+	}
+	if len(f.Params) > 0 {
+		return f.Params[0].Type()
+	}
+	return nil
 }
